@@ -102,6 +102,9 @@ def _run_one(entry: dict, repo: str) -> dict:
             if ok and entry.get('names'):
                 ok = any(entry['names'] in ln for ln in out.splitlines() if 'VIOLATION' in ln or ln.startswith('  '))
             res['outcome'] = 'ok' if ok else ('MISSED' if rc == 0 else ('ERROR' if rc == 2 else 'WRONG-CONSTRUCT'))
+        elif entry['expect'] == 'no-alarm':
+            # a variant that re-shapes what the rules are written against: silent or "cannot read this" (exit 2) are both honest, a violation is not
+            res['outcome'] = 'ok' if rc in (0, 2) else 'FALSE-ALARM'
         else:
             res['outcome'] = 'ok' if rc == 0 else ('FALSE-ALARM' if rc == 1 else 'ERROR')
         if res['outcome'] != 'ok':
@@ -136,7 +139,8 @@ def main(argv: List[str]) -> int:
                 for ln in r['detail'].splitlines()[:6]:
                     print('      ' + ln[:300])
     fire = sum(1 for r in res if r['expect'] == 'fire')
-    print(f'selftest: {len(res)} entries ({fire} must-fire, {len(res) - fire} must-stay-silent), {len(bad)} not as expected, '
+    unread = sum(1 for r in res if r['expect'] == 'no-alarm' and r.get('rc') == 2)
+    print(f'selftest: {len(res)} entries ({fire} must-fire, {len(res) - fire} must-stay-silent of which {unread} answered "cannot read"), {len(bad)} not as expected, '
           f'{time.time() - t0:.1f}s')
     return 1 if bad else 0
 
